@@ -248,6 +248,14 @@ def run_graph(factors, sizes, plates, eliminate, sr, res, riders, rng, real_para
                 mid = partial_sum_product(sum_op, prod_op, fs, e1, plates)
                 return reduce(prod_op, partial_sum_product(sum_op, prod_op, mid, e2, plates), funsor.terms.Number(UNIT[p]))
             check("partial-two-calls", two)
+    # two successive calls of the modified variant, every eliminated plate declared in both calls' plate_to_step
+    if not undefined:
+        allp = {pl: frozenset() for pl in plates if pl in eliminate}
+        for e1, e2 in itertools.islice(closed_splits(eliminate, plates, ordv, [f[0] for f in factors]), 4):
+            def two_mod(e1=e1, e2=e2):
+                mid = modified_partial_sum_product(sum_op, prod_op, fs, e1, dict(allp))
+                return reduce(prod_op, modified_partial_sum_product(sum_op, prod_op, mid, e2, dict(allp)), funsor.terms.Number(UNIT[p]))
+            check("modified-two-calls", two_mod)
     # plates that are not eliminated are ordinary batch inputs (partial_sum_product itself ignores them via `plates &= eliminate`)
     pts = {pl: frozenset() for pl in plates if pl in eliminate}
     check("modified", lambda: reduce(prod_op, modified_partial_sum_product(sum_op, prod_op, fs, eliminate, dict(pts)), funsor.terms.Number(UNIT[p])))
